@@ -137,6 +137,8 @@ class Facts:
             elif k == "impl":
                 self.impls.append((path, module, it))
                 st = norm_ty(it["self_ty"])
+                # `impl Sink<'_>` / `impl<'a> Sink<'a>`: lifetime arguments are not part of the type's name
+                st = re.sub(r"<(?:'[A-Za-z_]+,?)+>", "", st)
                 tr = norm_ty(it["trait"]) if it["trait"] else None
                 for m in it["items"]:
                     if m["k"] == "const" and not tr:
